@@ -262,10 +262,17 @@ pub fn run_random(tr: &mut Trace, run: u64, seed: u64, prof: Profile) -> RunStat
     p.log_probe = false;
     let mut quiet_rounds = 0;
     let mut quiet_since: Option<u64> = None;
+    let tail_lines0 = tr.lines;
+    let mut cut = false;
     let mut iter: u64 = 0;
     while !p.dead {
         let el = p.t_ms() - tail_start;
         if el > horizon_ms {
+            break;
+        }
+        if tr.lines - tail_lines0 > 150_000 {
+            // trace budget of one run exhausted before the horizon: the run is not judged for quiescence
+            cut = true;
             break;
         }
         // cadence grows so that an hour of virtual time stays cheap, but never exceeds 1 s
@@ -300,7 +307,7 @@ pub fn run_random(tr: &mut Trace, run: u64, seed: u64, prof: Profile) -> RunStat
             let hc = p.ep[e].hc.as_ref().unwrap();
             let s = hc.verif_snapshot();
             tr.line(json!({"ev": "Quiesced", "ep": p.ep[e].name, "pending": p.ep[e].last_pending, "bufsize": p.ep[e].last_bufsize.min(2_000_000_000),
-                "t": p.t_ms(), "tail_ms": p.t_ms() - tail_start, "horizon_ms": horizon_ms.min(2_000_000_000), "reached": st.quiesced,
+                "t": p.t_ms(), "tail_ms": p.t_ms() - tail_start, "horizon_ms": horizon_ms.min(2_000_000_000), "reached": st.quiesced, "cut": cut,
                 "rate": s.rate.send_rate, "rmode": s.rate.mode, "credit": s.flush_alloc.clamp(-2_000_000_000, 2_000_000_000)}));
         }
     }
